@@ -1,6 +1,7 @@
 package main
 
 import (
+	"regexp"
 	"fmt"
 	"go/ast"
 	"go/types"
@@ -140,4 +141,61 @@ func unreachableObligation(prog *Program, fi *FuncInfo, ct *Contract, target str
 		note = "call path: " + strings.Join(found, " -> ")
 	}
 	return &Obligation{Name: shortName(fi.Key) + "/unreachable(" + target + ")", Prop: ct.Props, Func: fi.Key, Kind: "call-graph", Goal: BoolLit(ok), Static: &ok, Note: note}
+}
+
+
+// compileCoversDefine: the Define method of a circuit type is called by gnark, not by repository code; its
+// preconditions are discharged where the circuit is handed to the compiler, by the assumed contract
+// frontend.Compile#*<pkg>.<Type>. This static obligation checks that every `requires` of Define (other than declared
+// `when` domain restrictions) occurs, with the receiver renamed, among the requires of that Compile contract.
+func compileCoversDefine(prog *Program, ct *Contract, key string) []*Obligation {
+	if !strings.HasSuffix(key, ".Define") {
+		return nil
+	}
+	fi := prog.Funcs[key]
+	if fi == nil || fi.Sig.Recv() == nil {
+		return nil
+	}
+	recv := fi.Sig.Recv().Name()
+	typ := strings.TrimSuffix(key, ".Define") // pkgpath.Type
+	slash := strings.LastIndex(typ, "/")
+	short := typ[slash+1:] // pkg.Type
+	var cc *Contract
+	for k, c := range prog.Contracts.ByKey {
+		if c.Extern && strings.Contains(k, "frontend.Compile#") && strings.HasSuffix(k, short) {
+			cc = c
+		}
+	}
+	norm := func(t, r string) string {
+		t = strings.Join(strings.Fields(t), " ")
+		if r != "" {
+			t = regexp.MustCompile(`\b`+regexp.QuoteMeta(r)+`\.`).ReplaceAllString(t, "§.")
+		}
+		return t
+	}
+	when := map[string]bool{}
+	for _, w := range ct.When {
+		when[norm(w, recv)] = true
+	}
+	var out []*Obligation
+	for i, rq := range ct.Requires {
+		t := norm(rq.Text, recv)
+		if when[t] {
+			continue
+		}
+		ok := false
+		if cc != nil {
+			for _, cr := range cc.Requires {
+				for _, pn := range cc.Params {
+					if norm(cr.Text, pn) == t {
+						ok = true
+					}
+				}
+			}
+		}
+		b := ok
+		out = append(out, &Obligation{Name: shortName(key) + fmt.Sprintf("/pre-covered#%d", i+1), Prop: ct.Props, Func: key, Kind: "pre-covered",
+			Goal: BoolLit(ok), Static: &b, Note: "precondition of Define must be required by the assumed frontend.Compile contract for this circuit type: " + rq.Text})
+	}
+	return out
 }
